@@ -140,8 +140,34 @@ def corresponds : List String → List String → Bool
   | m :: ms, g :: gs => dropLast m == dropLast g && (!(m.endsWith "+") || g.endsWith "+") && corresponds ms gs
   | _, _ => false
 
+/-- `triemem <root> <fuel> <k> | n<id>:<c>.<c> …`: the memory layer of a real trie.Database before a `Commit(root)` whose flush
+    failed after `k` node puts had reached the disk, followed by a successful `Commit(root)`.  The model answers whether the
+    disk is closed afterwards and how many distinct nodes the SECOND commit puts (the failed one must not have uncached). -/
+def handleTrieMem (hd : String) (nodesS : String) (go : String) : String :=
+  match fields hd with
+  | ["triemem", r, f, k] =>
+    let mem : Mem := (fields nodesS).filterMap fun t =>
+      match parseW t with
+      | some (.node h, some (.node cs)) => some (h, cs)
+      | _ => none
+    let root := natOf r
+    let fuel := natOf f
+    let md1 := commitStep true fuel (mem, []) root (some (natOf k))
+    let second := (commitMem md1.1 fuel root).map (·.1)
+    let md2 := commitStep true fuel md1 root none
+    let m := s!"closed={if closedB md2.2 then 1 else 0} second={second.eraseDups.length} fuelok={if commitFuelOK mem fuel root then 1 else 0}"
+    if m == go then m ++ "\tagree"
+    else if go.startsWith "closed=0" then m ++ "\tspec-reject:disk-not-closed-after-failed-and-retried-commit"
+    else m ++ "\tspec-ok"
+  | _ => "bad-op\tagree"
+
 def handle (l : String) : String :=
   let (inp, go) := splitCase l
+  if inp.startsWith "triemem " then
+    match inp.splitOn " | " with
+    | [hd, nodesS] => handleTrieMem hd nodesS go
+    | _ => "bad-op\tagree"
+  else
   match inp.splitOn " | " with
   | [hd, initS, stepsS, evS] =>
     match fields hd with
